@@ -411,3 +411,29 @@ pub proof fn lemma_sess_frame(f: &Fsm, ga: &GlobalData, gb: &GlobalData)
         assert(all_valid(f, hv_get(ga, h)));
     }
 }
+
+/// a session started by an invoke always knows its invoke id (set together by the executor)
+pub open spec fn ids_consistent(g: &GlobalData) -> bool {
+    g.parent_session_id.is_some() ==> g.caller_invoke_id.is_some()
+}
+
+pub open spec fn names_of(f: &Fsm, l: Seq<u32>) -> Seq<String> {
+    l.map_values(|s: u32| st(f, s).name)
+}
+
+pub proof fn lemma_without_all_self(s: Seq<u32>, rm: Seq<u32>)
+    requires
+        forall|x: u32| s.contains(x) ==> rm.contains(x),
+    ensures
+        without_all(s, rm) == Seq::<u32>::empty(),
+    decreases s.len(),
+{
+    if s.len() > 0 {
+        assert forall|x: u32| s.drop_last().contains(x) implies rm.contains(x) by {
+            let j = choose|j: int| 0 <= j < s.drop_last().len() && s.drop_last()[j] == x;
+            assert(s[j] == x);
+        }
+        lemma_without_all_self(s.drop_last(), rm);
+        assert(s.contains(s.last())) by { assert(s[s.len() - 1] == s.last()); }
+    }
+}
